@@ -57,6 +57,8 @@ func c10Offenders() []c10Offender {
 		{Name: "ignored-directory-with-links-to-things-outside-the-bundle", Nodes: []gen.NodeSpec{l("tmp/to-file", "../../../outside-file"), l("tmp/to-dir", "../../../outside-dir"), l("tmp/sub/to-private", "../../../../outside-dir/private.txt"), f("tmp/sub/x")}, Rules: "tmp/\n"},
 		{Name: "default-ignored-directory-with-links-to-things-outside", Nodes: []gen.NodeSpec{l(".git/objects/alt", "../../../../outside-dir"), l(".terraform/plugin-cache", "../../../outside-dir"), f(".git/HEAD")}},
 		{Name: "nested-double-star-rule", Nodes: []gen.NodeSpec{f("mod/examples/x/prod.tfvars"), f("examples/y/prod.tfvars"), f("examples/top.tfvars"), f("mod/keep.tf"), f("docs/a/b/c.md"), f("mod/docs/d.md")}, Rules: "examples/**/*.tfvars\ndocs/**\n"},
+		{Name: "rules-with-non-ascii-characters", Nodes: []gen.NodeSpec{f("données/secret.txt"), f("mod/données/x"), f("clé.clé"), f("mod/a.clé"), f("keep.txt"), f("日本/語.tf")}, Rules: "données/\n*.clé\n日本/\n"},
+		{Name: "rule-file-is-a-link-inside-the-package-with-rules-that-bite", Nodes: []gen.NodeSpec{{Path: "conf/rules.txt", Kind: "file", Mode: 0644, Content: "*.log\nsecret/\n"}, l(".terraformignore", "conf/rules.txt"), f("a.log"), f("secret/key"), f("keep.tf")}},
 		{Name: "fifo", Nodes: []gen.NodeSpec{{Path: "mod/pipe", Kind: "fifo", Mode: 0644}}, Bad: true},
 		{Name: "socket", Nodes: []gen.NodeSpec{{Path: "sock", Kind: "sock", Mode: 0644}}, Bad: true},
 		{Name: "link-to-fifo", Nodes: []gen.NodeSpec{{Path: "mod/pipe2", Kind: "fifo", Mode: 0644}, l("to-pipe", "mod/pipe2")}, Bad: true},
@@ -115,6 +117,27 @@ func c10World(off c10Offender, position int, extraOff *c10Offender) gen.World {
 	return w
 }
 
+// c10RulesText is the text of the package's rule file: the file itself, or,
+// when .terraformignore is a link to a file of the package, that file's text.
+func c10RulesText(p gen.RemotePkg) string {
+	if t, ok := p.Files[".terraformignore"]; ok {
+		return t
+	}
+	for _, n := range p.Extras {
+		if n.Path == ".terraformignore" && n.Kind == "link" && !strings.HasPrefix(n.Target, "/") && !strings.HasPrefix(n.Target, "..") {
+			if t, ok := p.Files[n.Target]; ok {
+				return t
+			}
+			for _, m := range p.Extras {
+				if m.Path == n.Target && m.Kind == "file" {
+					return m.Content
+				}
+			}
+		}
+	}
+	return ""
+}
+
 // c10Expect decides independently whether the fetched tree of package pi,
 // after reference ignore processing, still contains an offending entry.
 func c10Expect(p gen.RemotePkg, scratch string) (bad bool, why string) {
@@ -135,7 +158,7 @@ func c10Expect(p gen.RemotePkg, scratch string) (bad bool, why string) {
 	if err := gen.Materialise(root, gen.TreeSpec{Nodes: ex}); err != nil {
 		return false, ""
 	}
-	rules, _ := ref.ParseRules(p.Files[".terraformignore"])
+	rules, _ := ref.ParseRules(c10RulesText(p))
 	// remove what the reference excludes (files, links, specials by own path)
 	var all []string
 	filepath.Walk(root, func(q string, info os.FileInfo, err error) error {
@@ -189,8 +212,29 @@ func c10Expect(p gen.RemotePkg, scratch string) (bad bool, why string) {
 	return false, ""
 }
 
+// c10History: the case is preceded, in the same process, by the build of a
+// bundle whose only package has a rule file that begins with a negation, and
+// every package of the case proper carries .git directories.
+var c10History = false
+
+func c10EarlierBuild() {
+	w := gen.World{Finders: 1}
+	files := map[string]string{gen.MarkerFile: "content-0\n", "main.tf": "earlier", "keep.log": "k", "x.log": "x", ".terraformignore": "# starts with an exception\n\n!keep.log\n*.log\n", ".git/HEAD": "ref"}
+	w.Remotes = []gen.RemotePkg{{Base: "git::https://example.com/earlier.git", Content: 0, Files: files, Deps: map[string][]gen.Dep{}}}
+	w.Adds = []gen.Add{{Kind: "remote", Remote: gen.SrcRef{Pkg: 0}}}
+	runBuild(&w, "/c10-earlier/bundle", buildOpts{})
+	fixTreePerms("/c10-earlier")
+	os.RemoveAll("/c10-earlier")
+}
+
 func c10Run(env *fw.Env, off c10Offender, position int, extra *c10Offender) fw.Result {
 	w := c10World(off, position, extra)
+	if c10History {
+		c10EarlierBuild()
+		for pi := range w.Remotes {
+			w.Remotes[pi].Extras = append(w.Remotes[pi].Extras, gen.NodeSpec{Path: ".git/objects/aa/bb", Kind: "file", Mode: 0444, Content: "o"}, gen.NodeSpec{Path: ".git/refs/heads", Kind: "dir", Mode: 0755}, gen.NodeSpec{Path: "mod/.git/config", Kind: "file", Mode: 0644, Content: "c"})
+		}
+	}
 	desc := map[string]interface{}{"offender": off.Name, "nodes": gen.TreeSpec{Nodes: off.Nodes}.Strings(), "rules": off.Rules, "position": []string{"added package", "remote dependency", "registry target"}[position]}
 	if extra != nil {
 		desc["second_offender"] = extra.Name
@@ -225,8 +269,15 @@ func c10Run(env *fw.Env, off c10Offender, position int, extra *c10Offender) fw.R
 	}
 	os.RemoveAll("/c10x")
 	os.MkdirAll(target, 0755)
+	// every other case hands the builder its target directory by way of a symlink
+	buildTarget := target
+	if fw.HashString(fmt.Sprint(desc))%2 == 1 {
+		os.Symlink("bundle", "/c10/blink")
+		buildTarget = "/c10/blink"
+		res.Case.(map[string]interface{})["target_given_as"] = buildTarget + " -> bundle"
+	}
 	before := mon.Take("/", target)
-	br := runBuild(&w, target, buildOpts{KeepDir: true})
+	br := runBuild(&w, buildTarget, buildOpts{KeepDir: true})
 	after := mon.Take("/", target)
 	if br.NewErr != nil {
 		return fw.Result{Verdict: fw.Inconclusive, Msg: br.NewErr.Error()}
@@ -272,7 +323,13 @@ func c10Run(env *fw.Env, off c10Offender, position int, extra *c10Offender) fw.R
 		var rules []ref.Rule
 		for _, p := range w.Remotes {
 			if fmt.Sprintf("content-%d\n", p.Content) == string(marker) {
-				rules, _ = ref.ParseRules(p.Files[".terraformignore"])
+				rules, _ = ref.ParseRules(c10RulesText(p))
+			}
+		}
+		userNegation := false
+		for _, r := range rules {
+			if r.Negated {
+				userNegation = true
 			}
 		}
 		var problem string
@@ -284,6 +341,16 @@ func c10Run(env *fw.Env, off c10Offender, position int, extra *c10Offender) fw.R
 			rel = filepath.ToSlash(rel)
 			switch {
 			case info.IsDir():
+				// a directory selected by an exclusion rule for directories
+				// goes as a whole, unless a negation could bring something
+				// below it back (then its skeleton may stay)
+				if !userNegation {
+					for _, r := range append([]ref.Rule{{Raw: ".git/", DirOnly: true, Segs: []string{".git"}}}, rules...) {
+						if r.DirOnly && !r.Negated && r.MatchesItself(strings.Split(rel, "/")) {
+							problem = "directory " + rel + " is excluded by the rule " + r.Raw + " (and no negation follows) but is still there"
+						}
+					}
+				}
 			case info.Mode().IsRegular():
 				if ref.Excluded(rules, rel) {
 					problem = "file " + rel + " is excluded by the package's ignore rules but is still there"
@@ -337,6 +404,17 @@ func init() {
 			return r
 		},
 	}
+	history := &fw.Phase{
+		Name: "after-a-package-whose-rule-file-begins-with-a-negation", Chroot: true, Exhaustive: true,
+		N: func(string) int { return len(offs) * 3 },
+		Run: func(env *fw.Env, idx int) fw.Result {
+			c10Alias, c10History = false, true
+			defer func() { c10History = false }()
+			r := c10Run(env, offs[idx/3], idx%3, nil)
+			r.Hash ^= 0x3c3c
+			return r
+		},
+	}
 	pairs := &fw.Phase{
 		Name: "pairs-of-offenders-in-different-packages", Chroot: true, Exhaustive: true,
 		N: func(string) int { return len(offs) * len(offs) },
@@ -348,9 +426,9 @@ func init() {
 	fw.Register(&fw.Property{
 		ID:    "C10",
 		Level: "exploration",
-		Rule: "a three-package world (added package -> remote dependency, -> registry target) is built inside a chroot arena; one of 39 shapes is planted in one package (exhaustive x 3 positions) or two shapes in two packages (all ordered pairs): clean relative links and chains, links to a sibling / out of the bundle / absolute / to the manifest / dangling / looping / through the directory's own name, fifos, sockets, links to fifos, offenders hidden by ignore rules, links into ignored directories sorted before and after the directory, re-included files, rule files with negations. " +
+		Rule: "a three-package world (added package -> remote dependency, -> registry target) is built inside a chroot arena; one of 42 shapes is planted in one package (exhaustive x 3 positions) or two shapes in two packages (all ordered pairs): clean relative links and chains, links to a sibling / out of the bundle / absolute / to the manifest / dangling / looping / through the directory's own name, fifos, sockets, links to fifos, offenders hidden by ignore rules, links into ignored directories sorted before and after the directory, re-included files, rule files with negations. " +
 			"Independent expectation: the tree is materialised by the harness, reference-excluded paths are removed, remaining links are resolved physically; an offender left => the build must fail, otherwise it must succeed and every package directory of the bundle must contain only files, directories and links resolving to an existing file/directory inside it, no reference-excluded file, no .tmp-* directory; snapshot diff around the target directory. non-trivial = every case; distinct = shapes x position",
 		Assumptions: []string{"a link into an ignored (and therefore removed) directory is a dangling link of the finished package", "links to in-package directories are not part of the universe (hashing them fails today; either outcome would be acceptable)"},
-		Phases:      []*fw.Phase{single, aliased, pairs},
+		Phases:      []*fw.Phase{single, aliased, history, pairs},
 	})
 }
